@@ -162,7 +162,13 @@ def apply_op(nodes, op) -> str:
             nodes[op[1]].parent = _parent_arg(nodes, op[2])
         elif k == "C":
             FAULT["kind"] = None if op[3] == "none" else op[3]
-            nodes[op[1]].children = [_member(nodes, c) for c in op[2]]
+            held = [_member(nodes, c) for c in op[2]]
+            try:
+                nodes[op[1]].children = held
+            finally:
+                # the caller goes on using ITS list object: whatever it does to it must not reach the tree
+                held.append(held[0] if held else None)
+                held.clear()
         elif k == "K":
             FAULT["kind"] = None if op[2] == "none" else op[2]
             nodes[op[1]].children = 5
